@@ -203,6 +203,18 @@ def sim_behaviours(hists, cfgrec, base_id):
     return [{"id": base_id + i, "cfg": cfgrec, "steps": h} for i, h in enumerate(hists)]
 
 
+def sparse_copies(bs, offset=40000000):
+    """The same behaviours without the per-step state description (which reads everything through
+    references after every operation and can thereby mask stale internal state of the runtime)."""
+    out = []
+    for b in bs:
+        e = dict(b)
+        e["cfg"] = dict(b["cfg"], sparse=True)
+        e["id"] = b["id"] + offset
+        out.append(e)
+    return out
+
+
 HEALTH_KINDS = ("health", "root-count", "ledger-population")
 
 
@@ -271,7 +283,7 @@ def check_resources(ctx, pid):
     # nested histories, see known/res.json "observations")
     extra = ["health=1", "atree=0"] + (["healthfirst=1"] if health_only else [])
     s1, f1 = run_driver(ctx, binary, "replay", behs, "cover", extra)
-    s2, f2 = run_driver(ctx, binary, "replay", sbehs, "sim", extra)
+    s2, f2 = run_driver(ctx, binary, "replay", sbehs + sparse_copies(sbehs), "sim", extra)
     for f in f1 + f2:
         classify(f)
     if other:
@@ -333,7 +345,7 @@ def check_C04(ctx):
             raise Infra("behaviours never exercise %s" % need)
     cls = reporter(ctx, only=lambda f: not is_health(f))
     s1, f1 = run_driver(ctx, binary, "replay", behs, "cover", ["health=0", "atree=0"])
-    s2, f2 = run_driver(ctx, binary, "replay", sbehs, "sim", ["health=0", "atree=0"])
+    s2, f2 = run_driver(ctx, binary, "replay", sbehs + sparse_copies(sbehs), "sim", ["health=0", "atree=0"])
     for f in f1 + f2:
         cls(f)
     ctx.add_sample({"kind": "transition-cover behaviour", "steps": [{k: v for k, v in s.items() if k != "pop"} for s in behs[len(behs) // 2]["steps"][:10]]})
@@ -396,8 +408,19 @@ def check_C49(ctx):
         ctx.report(sig, "behaviour %d (%s, %s contract) step %d, %s %s: [%s] %s" %
                    (f["id"], f["engine"], f.get("variant"), f["step"], f.get("op", ""), f.get("form", ""), f["kind"], f["msg"]),
                    {"behaviour": f.get("beh"), "source": f.get("src"), "engine": f["engine"]})
-    s1, f1 = run_driver(ctx, binary, "att", behs, "cover")
-    s2, f2 = run_driver(ctx, binary, "att", sbehs, "sim")
+    # every behaviour is replayed twice: with the state description logged after every step, and
+    # "sparse" (no reads of the attachments between the operations of a transaction; per-operation
+    # results, events and the state re-read after the commit are still compared)
+    def sparse(bs):
+        out = []
+        for b in bs:
+            e = dict(b)
+            e["cfg"] = dict(b["cfg"], sparse=True)
+            e["id"] = b["id"] + 40000000
+            out.append(e)
+        return out
+    s1, f1 = run_driver(ctx, binary, "att", behs + sparse(behs), "cover")
+    s2, f2 = run_driver(ctx, binary, "att", sbehs + sparse(sbehs), "sim")
     s3, f3 = run_driver(ctx, binary, "att", ent, "ent")
     for f in f1 + f2 + f3:
         classify(f)
